@@ -221,6 +221,16 @@ def judge(W, run, trace):
             if is_err(out) or out.get("nums") != exp or not out.get("same") or not out.get("distinct"):
                 v(i, "iter", "wrong_order_or_members", {"nums": exp, "same": True, "distinct": True}, out, role)
             continue
+        if k == "define_elements":
+            tbl, prefill = ev[1], ev[2]
+            if tbl not in m.tables or (prefill is not None and prefill not in m.tables):
+                continue
+            role = "public" if tbl == "public" else "private"
+            if is_err(out):
+                v(i, "define_elements", "exception:" + out[1], {"wrong": 0}, out, role)
+            elif out.get("wrong"):
+                v(i, "define_elements", "wrong_key", {"wrong": 0}, out, role)
+            continue
         if k == "iter_interleaved":
             tbl, Z, what = ev[1], ev[2], ev[4]
             if tbl not in m.tables:
